@@ -46,7 +46,7 @@ func init() {
 			if tier == "thorough" {
 				return "trees <= 5 nodes over 8 leaves (nil,true,int64,int8,float64,float32,string,time) and keys a,b,c: single-point perturbations with all single and paired ignore sets; trees <= 4 nodes: two-point perturbations with single ignores and cross pairs; scalar alphabet 38x38 in 3 contexts; Match over all member-subset fingerprints"
 			}
-			return "trees <= 4 nodes over 6 leaves (nil,true,int64,int8,float64,string) and keys a,b: single-point perturbations with all single and paired ignore sets; scalar alphabet 38x38 in 3 contexts; Match over all member-subset fingerprints"
+			return "trees <= 4 nodes over 6 leaves (nil,true,int64,int8,float64,string) and keys a,b: single-point perturbations with all single and paired ignore sets; trees <= 3 nodes: two-point perturbations with single ignores and cross pairs; scalar alphabet 38x38 in 3 contexts; Match over all member-subset fingerprints"
 		},
 	})
 }
@@ -391,6 +391,9 @@ func perturbations(a any, keys []string) []pert {
 				seen[p] = true
 				add("elem+", ext(loc, p), "add-elem:"+posName(p, len(t)+1), edit(a, ext(loc, p), "ins", int64(9)))
 			}
+			if len(t) >= 2 {
+				add("elem-", ext(loc, 1), "truncate-after-first", edit(a, loc, "set", append([]any{}, t[:1]...)))
+			}
 			for i, e := range t {
 				walk(e, ext(loc, i), v, i, len(t))
 			}
@@ -630,6 +633,15 @@ func ignShape(ign [][]any, l []any) string {
 	for _, g := range ign {
 		set[ignRel(g, l)] = true
 	}
+	if set["sibidx-deep"] {
+		// an ignore that passes through another index of an array above l and
+		// continues below it: the partner only matters when it covers l
+		for r := range set {
+			if r != "sibidx-deep" && r != "covers" && r != "covers*" {
+				delete(set, r)
+			}
+		}
+	}
 	rs := make([]string, 0, len(set))
 	for r := range set {
 		rs = append(rs, r)
@@ -732,9 +744,34 @@ func callText(fn, form string, a, b any, ign [][]any) string {
 	return s + ") form=" + form
 }
 
-// judge applies the C19 oracle to one (a, b, ignore set) on one form.
-// pertClass "-" collapses the perturbation coordinate (ignore-induced).
-func judge(c *core.Ctx, form string, a, b any, deltas []diffref.Delta, ign [][]any, pertClass string) []failure {
+// exists reports whether loc addresses a value in v.
+func exists(v any, loc []any) bool {
+	for _, e := range loc {
+		switch t := v.(type) {
+		case []any:
+			i, ok := e.(int)
+			if !ok || i < 0 || i >= len(t) {
+				return false
+			}
+			v = t[i]
+		case map[string]any:
+			k, ok := e.(string)
+			if !ok {
+				return false
+			}
+			if v, ok = t[k]; !ok {
+				return false
+			}
+		default:
+			return false
+		}
+	}
+	return true
+}
+
+// judge applies the C19 oracle for Diff and Compare to one (a, b, ignore
+// set) on one form and returns what is wrong.
+func judge(c *core.Ctx, form string, a, b any, deltas []diffref.Delta, ign [][]any) []failure {
 	nCmp := 1
 	if multiKey(a) || multiKey(b) {
 		nCmp = 3
@@ -743,59 +780,49 @@ func judge(c *core.Ctx, form string, a, b any, deltas []diffref.Delta, ign [][]a
 	if c != nil {
 		c.Add("evaluations", int64(1+nCmp))
 	}
-	var fails []failure
 	if pan != nil {
-		return []failure{{sig: core.Sig("fn=Diff", "at=root", "pert="+pertClass, "ign="+ignShape(ign, nil), "panic:"+panicKind(pan)), form: form, exp: "no panic", obs: fmt.Sprint(pan)}}
+		return []failure{{fn: "Diff", kind: "panic:" + panicKind(pan), exp: "no panic", obs: fmt.Sprint(pan)}}
 	}
+	var fails []failure
 	var liveMust, live []diffref.Delta
+	var liveLocs, mustLocs [][]any
 	for _, d := range deltas {
 		if diffref.Ignored(ign, d.Loc) {
 			continue
 		}
 		live = append(live, d)
+		liveLocs = append(liveLocs, d.Loc)
 		if !d.Open {
 			liveMust = append(liveMust, d)
+			mustLocs = append(mustLocs, d.Loc)
 		}
 	}
-	var liveLocs, mustLocs [][]any
-	for _, d := range live {
-		liveLocs = append(liveLocs, d.Loc)
+	expTxt := "divergent and not ignored: " + pathsStr(mustLocs)
+	if len(liveLocs) != len(mustLocs) {
+		expTxt += " (optionally also " + pathsStr(liveLocs) + ")"
 	}
-	for _, d := range liveMust {
-		mustLocs = append(mustLocs, d.Loc)
-	}
-	expTxt := fmt.Sprintf("divergent, not ignored: must %s, may %s", pathsStr(mustLocs), pathsStr(liveLocs))
 	obsTxt := "Diff=" + pathsStr(diffs)
-	// soundness
+	// soundness: every returned path leads to a divergence that is not ignored
 	for _, p := range diffs {
-		kind := ""
-		switch {
-		case diffref.Ignored(ign, p):
-			kind = "spurious"
-		default:
-			ok := false
+		ok := false
+		if !diffref.Ignored(ign, p) {
 			for _, d := range live {
 				if diffref.Covers(p, d) {
 					ok = true
 					break
 				}
 			}
-			if !ok {
-				kind = "spurious"
-				// same shape as a live divergence but for array indexes?
-				for _, d := range live {
-					if sameButIndexes(p, d.Loc) {
-						kind = "wrong-index"
-					}
-				}
-			}
 		}
-		if kind != "" {
-			fails = append(fails, failure{sig: core.Sig("fn=Diff", "at="+atOf(p), "pert="+pertClass, "ign="+ignShape(ign, p), kind), form: form,
-				exp: expTxt, obs: obsTxt + " (" + locStr(p) + " is " + kind + ")"})
+		if ok {
+			continue
 		}
+		kind := "spurious"
+		if !exists(a, p) && !exists(b, p) {
+			kind = "wrong-index" // addresses nothing in either tree
+		}
+		fails = append(fails, failure{fn: "Diff", loc: p, kind: kind, exp: expTxt, obs: obsTxt + ": " + locStr(p) + " is " + kind})
 	}
-	// completeness
+	// completeness: every divergence that is not ignored lies under a returned path
 	for _, d := range liveMust {
 		ok := false
 		for _, p := range diffs {
@@ -805,11 +832,10 @@ func judge(c *core.Ctx, form string, a, b any, deltas []diffref.Delta, ign [][]a
 			}
 		}
 		if !ok {
-			fails = append(fails, failure{sig: core.Sig("fn=Diff", "at="+atOf(d.Loc), "pert="+pertClass, "ign="+ignShape(ign, d.Loc), "missed"), form: form,
-				exp: expTxt, obs: obsTxt + " (" + locStr(d.Loc) + " is missed)"})
+			fails = append(fails, failure{fn: "Diff", loc: d.Loc, kind: "missed", exp: expTxt, obs: obsTxt + ": " + locStr(d.Loc) + " is missed"})
 		}
 	}
-	// Compare
+	// Compare: nil iff Diff empty, else one of Diff's paths
 	for i := range cmps {
 		bad := ""
 		switch {
@@ -828,41 +854,18 @@ func judge(c *core.Ctx, form string, a, b any, deltas []diffref.Delta, ign [][]a
 		}
 		if bad != "" {
 			var l []any
+			obs := "nil"
 			if !cmpNil[i] {
-				l = cmps[i]
+				l, obs = cmps[i], locStr(cmps[i])
 			} else if len(diffs) > 0 {
 				l = diffs[0]
 			}
-			obs := "nil"
-			if !cmpNil[i] {
-				obs = locStr(cmps[i])
-			}
-			fails = append(fails, failure{sig: core.Sig("fn=Compare", "at="+atOf(l), "pert="+pertClass, "ign="+ignShape(ign, l), "compare-inconsistent:"+bad), form: form,
-				exp: "nil iff Diff empty, else a member of " + obsTxt, obs: "Compare=" + obs})
+			fails = append(fails, failure{fn: "Compare", loc: l, kind: "compare-inconsistent:" + bad,
+				exp: "nil iff Diff is empty, else a member of " + obsTxt, obs: "Compare=" + obs})
 			break
 		}
 	}
 	return fails
-}
-
-func sameButIndexes(p, l []any) bool {
-	if len(p) != len(l) {
-		return false
-	}
-	diff := false
-	for i := range p {
-		pi, pInt := p[i].(int)
-		li, lInt := l[i].(int)
-		switch {
-		case pInt && lInt:
-			if pi != li {
-				diff = true
-			}
-		case !diffref.ElemEq(p[i], l[i]):
-			return false
-		}
-	}
-	return diff
 }
 
 func size(a, b any, ign [][]any, form string) int {
@@ -876,7 +879,19 @@ func size(a, b any, ign [][]any, form string) int {
 	return n
 }
 
-// pair runs every ignore set on (a,b) and (b,a), both forms.
+func setKey(ign [][]any) string {
+	ks := make([]string, len(ign))
+	for i, g := range ign {
+		ks[i] = ignKey(g)
+	}
+	sort.Strings(ks)
+	return strings.Join(ks, ",")
+}
+
+// pair runs every ignore set on (a,b) and (b,a), both forms. The sets come
+// smallest first; a failure that already shows (same function, location and
+// discrepancy) with a proper subset of the ignore set is attributed to the
+// subset only, so each failure is reported under a minimal ignore set.
 func (e *evaluator) pair(a, b any, pertDesc string, pertClass string, ignSets [][][]any, doGen bool) {
 	c := e.c
 	for dir := 0; dir < 2; dir++ {
@@ -887,37 +902,54 @@ func (e *evaluator) pair(a, b any, pertDesc string, pertClass string, ignSets []
 			desc += " (swapped)"
 		}
 		deltas := diffref.Deltas(x, y)
+		seen := map[string]map[string]bool{} // form|setKey -> failure ids
 		baseOK := true
-		for si, ign := range ignSets {
+		for _, ign := range ignSets {
 			if len(deltas) > 0 {
 				c.Nontrivial()
 			}
 			cls := pertClass
 			if len(ign) > 0 && baseOK {
-				cls = "-"
+				cls = "-" // the pair is judged correctly without ignores: the perturbation is not the cause
 			}
-			var simpleSigs map[string]bool
+			simpleSigs := map[string]bool{}
 			for _, form := range []string{"simple", "gen"} {
 				if form == "gen" && !doGen {
 					continue
 				}
-				fs := judge(c, form, x, y, deltas, ign, cls)
-				if form == "simple" {
-					simpleSigs = map[string]bool{}
-					for _, f := range fs {
-						simpleSigs[f.sig] = true
-					}
-					if si == 0 && len(ign) == 0 && len(fs) > 0 {
-						baseOK = false
-					}
+				fs := judge(c, form, x, y, deltas, ign)
+				ids := map[string]bool{}
+				seen[form+"|"+setKey(ign)] = ids
+				if form == "simple" && len(ign) == 0 && len(fs) > 0 {
+					baseOK = false
 				}
 				for _, f := range fs {
-					sig := f.sig
-					if form == "gen" && !simpleSigs[sig] {
+					ids[f.id()] = true
+					attributed := false
+					if len(ign) > 0 {
+						if seen[form+"|"][f.id()] {
+							attributed = true
+						}
+						if len(ign) == 2 {
+							for _, g := range ign {
+								if seen[form+"|"+ignKey(g)][f.id()] {
+									attributed = true
+								}
+							}
+						}
+					}
+					if attributed {
+						c.Add("failures_attributed_to_smaller_ignore_set", 1)
+						continue
+					}
+					sig := f.sig(cls, ign)
+					if form == "simple" {
+						simpleSigs[sig] = true
+					} else if !simpleSigs[sig] {
 						sig += "|form=gen-only"
 					}
 					c.Fail(sig, caseT{Fam: "diff", Form: form, A: gens.EncodeTree(x), B: gens.EncodeTree(y), Ign: ign, Pert: desc, Class: pertClass,
-						Call: callText("Diff", form, x, y, ign)}, size(x, y, ign, form), f.exp, f.obs)
+						Call: callText(f.fn, form, x, y, ign)}, size(x, y, ign, form), f.exp, f.obs)
 				}
 			}
 		}
@@ -1013,8 +1045,8 @@ func subFingerprints(v any) []any {
 		outs := [][]any{{}}
 		for _, e := range t {
 			var next [][]any
-			for _, s := range subFingerprints(e) {
-				for _, o := range outs {
+			for _, o := range outs {
+				for _, s := range subFingerprints(e) {
 					next = append(next, append(append([]any{}, o...), s))
 				}
 			}
@@ -1030,8 +1062,8 @@ func subFingerprints(v any) []any {
 		for _, k := range sortedKeys(t) {
 			subs := subFingerprints(t[k])
 			next := append([]map[string]any{}, outs...) // member left out
-			for _, s := range subs {
-				for _, o := range outs {
+			for _, o := range outs {
+				for _, s := range subs {
 					m := make(map[string]any, len(o)+1)
 					for kk, vv := range o {
 						m[kk] = vv
@@ -1064,22 +1096,26 @@ func callMatch(form string, f, t any) (ok bool, pan any) {
 	return alt.Match(x, y), nil
 }
 
-func judgeMatch(c *core.Ctx, form string, f, t any, at, pertClass, sub string) []failure {
+// judgeMatch compares alt.Match with the reference; "" = agrees.
+func judgeMatch(c *core.Ctx, form string, f, t any) (kind, exp, obs string) {
 	want := diffref.Match(f, t)
 	got, pan := callMatch(form, f, t)
 	if c != nil {
 		c.Eval()
 	}
-	if pan != nil {
-		return []failure{{sig: core.Sig("fn=Match", "at="+at, "pert="+pertClass, "fp="+sub, "panic:"+panicKind(pan)), form: form, exp: "no panic", obs: fmt.Sprint(pan)}}
-	}
 	switch {
+	case pan != nil:
+		return "panic:" + panicKind(pan), "no panic", fmt.Sprint(pan)
 	case want == diffref.Equal && !got:
-		return []failure{{sig: core.Sig("fn=Match", "at="+at, "pert="+pertClass, "fp="+sub, "false-negative"), form: form, exp: "true (every member of the fingerprint is matched)", obs: "false"}}
+		return "false-negative", "true (every member of the fingerprint is matched)", "false"
 	case want == diffref.Differ && got:
-		return []failure{{sig: core.Sig("fn=Match", "at="+at, "pert="+pertClass, "fp="+sub, "false-positive"), form: form, exp: "false (a member of the fingerprint is not matched)", obs: "true"}}
+		return "false-positive", "false (a member of the fingerprint is not matched)", "true"
 	}
-	return nil
+	return "", "", ""
+}
+
+func matchSig(at, pertClass, sub, kind string) string {
+	return core.Sig("fn=Match", "at="+at, "pert="+pertClass, "fp="+sub, kind)
 }
 
 func (e *evaluator) match(f, t any, at, pertDesc, pertClass, sub string, doGen bool) {
@@ -1087,7 +1123,7 @@ func (e *evaluator) match(f, t any, at, pertDesc, pertClass, sub string, doGen b
 	if diffref.Match(f, t) == diffref.Differ {
 		c.Nontrivial()
 	}
-	var simpleSigs map[string]bool
+	simpleSigs := map[string]bool{}
 	for _, form := range []string{"simple", "gen"} {
 		if form == "gen" && !doGen {
 			continue
@@ -1097,21 +1133,18 @@ func (e *evaluator) match(f, t any, at, pertDesc, pertClass, sub string, doGen b
 			n = 3
 		}
 		for i := 0; i < n; i++ {
-			fs := judgeMatch(c, form, f, t, at, pertClass, sub)
-			if form == "simple" && i == 0 {
-				simpleSigs = map[string]bool{}
-				for _, x := range fs {
-					simpleSigs[x.sig] = true
-				}
+			kind, exp, obs := judgeMatch(c, form, f, t)
+			if kind == "" {
+				continue
 			}
-			for _, x := range fs {
-				sig := x.sig
-				if form == "gen" && !simpleSigs[sig] {
-					sig += "|form=gen-only"
-				}
-				c.Fail(sig, caseT{Fam: "match", Form: form, A: gens.EncodeTree(f), B: gens.EncodeTree(t), Pert: pertDesc, Class: pertClass,
-					Call: callText("Match", form, f, t, nil)}, size(f, t, nil, form), x.exp, x.obs)
+			sig := matchSig(at, pertClass, sub, kind)
+			if form == "simple" {
+				simpleSigs[sig] = true
+			} else if !simpleSigs[sig] {
+				sig += "|form=gen-only"
 			}
+			c.Fail(sig, caseT{Fam: "match", Form: form, A: gens.EncodeTree(f), B: gens.EncodeTree(t), Pert: pertDesc, Class: pertClass,
+				Call: callText("Match", form, f, t, nil)}, size(f, t, nil, form), exp, obs)
 		}
 	}
 }
@@ -1131,9 +1164,14 @@ func scalars() []any {
 	}
 }
 
+// scalarFamily runs every ordered pair of the scalar alphabet at the root,
+// as the only array element and as the only object member. A discrepancy
+// seen in all three contexts is reported once with at=any; one seen on both
+// forms carries no form coordinate.
 func (e *evaluator) scalarFamily() {
 	c := e.c
 	ss := scalars()
+	ctxNames := []string{"root", "array", "object"}
 	idx := 0
 	for _, x := range ss {
 		for _, y := range ss {
@@ -1151,7 +1189,28 @@ func (e *evaluator) scalarFamily() {
 			}
 			cls := "scalar:" + kindOf(x) + "/" + kindOf(y) + ":" + rel
 			desc := fmt.Sprintf("scalar pair %s vs %s", gens.Show(x), gens.Show(y))
-			doGen := genable(x) && genable(y)
+			forms := []string{"simple"}
+			if genable(x) && genable(y) {
+				forms = append(forms, "gen")
+			}
+			type hit struct {
+				cs       caseT
+				size     int
+				exp, obs string
+			}
+			// key: fn|kind|extra -> form -> ctx -> hit
+			found := map[string]map[string]map[int]hit{}
+			put := func(key, form string, ctx int, h hit) {
+				if found[key] == nil {
+					found[key] = map[string]map[int]hit{}
+				}
+				if found[key][form] == nil {
+					found[key][form] = map[int]hit{}
+				}
+				if _, dup := found[key][form][ctx]; !dup {
+					found[key][form][ctx] = h
+				}
+			}
 			for ctx := 0; ctx < 3; ctx++ {
 				var a, b any = x, y
 				switch ctx {
@@ -1164,25 +1223,48 @@ func (e *evaluator) scalarFamily() {
 				if len(deltas) > 0 {
 					c.Nontrivial()
 				}
-				for _, form := range []string{"simple", "gen"} {
-					if form == "gen" && !doGen {
+				for _, form := range forms {
+					for _, f := range judge(c, form, a, b, deltas, nil) {
+						put(f.fn+"|"+f.kind, form, ctx, hit{caseT{Fam: "diff", Form: form, A: gens.EncodeTree(a), B: gens.EncodeTree(b), Pert: desc, Class: cls,
+							Call: callText(f.fn, form, a, b, nil)}, size(a, b, nil, form), f.exp, f.obs})
+					}
+					if kind, exp, obs := judgeMatch(c, form, a, b); kind != "" {
+						put("Match|"+kind, form, ctx, hit{caseT{Fam: "match", Form: form, A: gens.EncodeTree(a), B: gens.EncodeTree(b), Pert: desc, Class: cls,
+							Call: callText("Match", form, a, b, nil)}, size(a, b, nil, form), exp, obs})
+					}
+				}
+			}
+			for key, byForm := range found {
+				parts := strings.SplitN(key, "|", 2)
+				for form, byCtx := range byForm {
+					suffix := ""
+					if form == "gen" {
+						rest := map[int]hit{}
+						for ctx, h := range byCtx {
+							if _, same := byForm["simple"][ctx]; !same {
+								rest[ctx] = h
+							}
+						}
+						if len(rest) == 0 {
+							continue // same discrepancy on the simple form: reported there
+						}
+						byCtx, suffix = rest, "|form=gen-only"
+					}
+					emit := func(at string, h hit) {
+						var sig string
+						if parts[0] == "Match" {
+							sig = matchSig(at, cls, "full", parts[1])
+						} else {
+							sig = core.Sig("fn="+parts[0], "at="+at, "pert="+cls, "ign=none", parts[1])
+						}
+						c.Fail(sig+suffix, h.cs, h.size, h.exp, h.obs)
+					}
+					if len(byCtx) == 3 {
+						emit("any", byCtx[0])
 						continue
 					}
-					for _, f := range judge(c, form, a, b, deltas, nil, cls) {
-						sig := f.sig
-						if form == "gen" {
-							sig += "|form=gen"
-						}
-						c.Fail(sig, caseT{Fam: "diff", Form: form, A: gens.EncodeTree(a), B: gens.EncodeTree(b), Pert: desc, Class: cls,
-							Call: callText("Diff", form, a, b, nil)}, size(a, b, nil, form), f.exp, f.obs)
-					}
-					for _, f := range judgeMatch(c, form, a, b, []string{"root", "array", "object"}[ctx], cls, "full") {
-						sig := f.sig
-						if form == "gen" {
-							sig += "|form=gen"
-						}
-						c.Fail(sig, caseT{Fam: "match", Form: form, A: gens.EncodeTree(a), B: gens.EncodeTree(b), Pert: desc, Class: cls,
-							Call: callText("Match", form, a, b, nil)}, size(a, b, nil, form), f.exp, f.obs)
+					for ctx, h := range byCtx {
+						emit(ctxNames[ctx], h)
 					}
 				}
 			}
@@ -1206,7 +1288,7 @@ func run(c *core.Ctx) {
 	keys := keyset(quick)
 	lv := leaves(quick)
 	maxN := c.Pick(4, 5)
-	twoN := c.Pick(0, 4)
+	twoN := c.Pick(3, 4)
 	e.scalarFamily()
 	idx := 0
 	sampled := 0
@@ -1301,16 +1383,16 @@ func replay(c *core.Ctx, raw json.RawMessage) {
 	ign := decodeIgn(cs.Ign)
 	if cs.Fam == "match" {
 		for i := 0; i < 3; i++ {
-			for _, f := range judgeMatch(c, cs.Form, a, b, "replay", cs.Class, "replay") {
-				c.Fail("replay|"+f.sig, cs, 1, f.exp, f.obs)
+			if kind, exp, obs := judgeMatch(c, cs.Form, a, b); kind != "" {
+				c.Fail("replay|"+matchSig("replay", cs.Class, "replay", kind), cs, 1, exp, obs)
 			}
 		}
 		return
 	}
 	deltas := diffref.Deltas(a, b)
 	for i := 0; i < 3; i++ {
-		for _, f := range judge(c, cs.Form, a, b, deltas, ign, cs.Class) {
-			c.Fail("replay|"+f.sig, cs, 1, f.exp, f.obs)
+		for _, f := range judge(c, cs.Form, a, b, deltas, ign) {
+			c.Fail("replay|"+f.sig(cs.Class, ign), cs, 1, f.exp, f.obs)
 		}
 	}
 }
